@@ -585,8 +585,12 @@ class ForestRuleExtractor:
         Find a rule that have the given rule key.
         """
         all_classes = (rule_key.parent,) + rule_key.children
+        # A factory can yield a rule whose parent is not the class it was applied
+        # to, so as a last resort every other class is tried as well.
+        other_classes = [label for label in self.classdb if label not in all_classes]
         all_normal_rules = itertools.chain.from_iterable(
-            self._rules_for_class(c) for c in all_classes
+            self._rules_for_class(c)
+            for c in itertools.chain(all_classes, other_classes)
         )
         for normal_rule in all_normal_rules:
             try:
